@@ -7,7 +7,7 @@ LEVEL = 'other'
 EXPLANATION = ('Partial (safety core by contract, wake-up argument not mechanised): one worker iteration lets no exception escape, calls task_done once and notify_all once under cond_var after publishing; execute_tasks sends a sentinel to and joins every thread it started on EVERY exit path (normal, DepGraphError before any thread exists, any exception in the master loop), calls wait() only while holding cond_var and never joins while holding it. Absence of a lost wake-up / termination of the master loop is a liveness argument no contract here decides; the native sweep with a hang watchdog is the bounded stand-in for it.')
 ASSUMPTIONS = su.ASSUMPTIONS
 TRUSTED = su.TRUSTED
-UNITS = 'decide decide_waiting last_end_time enqueue worker master schedule scheduler_init og independence env_locks merge_done dg_add_node dg_add_dependency dg_remove_node dg_flatten dg_histories env_conformance native_sweep'.split()
+UNITS = 'decide decide_waiting last_end_time enqueue worker master schedule scheduler_init backend_init og independence env_locks merge_done dg_add_node dg_add_dependency dg_remove_node dg_flatten dg_histories env_conformance native_sweep'.split()
 
 
 def units(tier):
